@@ -169,7 +169,7 @@ theorem callableCommon_facts : ∀ n ∈ callableCommon,
     (n == "r") = false ∧ (n == "Type") = false ∧ (n == "net") = false ∧
     (Gen.FUNCTION_WHITELIST.contains n || pyBuiltinsModelled.contains n) = true ∧
     allowedCalls.contains n = true ∧ baseKeys.contains n = true ∧
-    (n == "None") = false ∧ (n == "True") = false ∧ (n == "False") = false := by
+    (n == "None") = false ∧ (n == "True") = false ∧ (n == "False") = false ∧ hasPrefix "__" n = false := by
   decide
 
 theorem resolve_name (s : String) : resolveAttrPath (.name s) = some s := by
@@ -243,8 +243,16 @@ theorem lookup_some_of_mem {x : String} {env : Env} (h : x ∈ keys env) : ∃ v
       exact ⟨w, by simp [List.lookup, hb, hw]⟩
 
 theorem c_name (rec : PVal) (env : Env) (id : String) (h : id ∈ keys env ∨ commonNames.contains id = true) :
-    (match env.lookup id with | some v => Except.ok v | none => refName P { compiled := true, record := rec } id)
-    = (match env.lookup id with | some v => Except.ok v | none => refName P { compiled := false, record := rec } id) := by
+    (match env.lookup id with
+     | some v => Except.ok v
+     | none =>
+       if !({ compiled := true, record := rec } : RefCfg).compiled && !(baseKeys.contains id) && hasPrefix "__" id
+       then Except.error Err.invalidOp else refName P { compiled := true, record := rec } id)
+    = (match env.lookup id with
+       | some v => Except.ok v
+       | none =>
+         if !({ compiled := false, record := rec } : RefCfg).compiled && !(baseKeys.contains id) && hasPrefix "__" id
+         then Except.error Err.invalidOp else refName P { compiled := false, record := rec } id) := by
   cases hl : env.lookup id with
   | some v => rfl
   | none =>
@@ -260,7 +268,7 @@ theorem c_name (rec : PVal) (env : Env) (id : String) (h : id ∈ keys env ∨ c
       · subst h
         have hb : "Type" ∈ baseKeys := by decide
         simp [refName, hb, baseVal]
-      · obtain ⟨h1, h2, h3, h4, _, h6, h7, h8, h9⟩ := callableCommon_facts id (by simpa using h)
+      · obtain ⟨h1, h2, h3, h4, _, h6, h7, h8, h9, _⟩ := callableCommon_facts id (by simpa using h)
         have h4' : id ∈ Gen.FUNCTION_WHITELIST ∨ id ∈ pyBuiltinsModelled := by simpa using h4
         have h6' : id ∈ baseKeys := by simpa using h6
         simp [refName, h1, h2, h3, h4', h6', baseVal, h7, h8, h9]
